@@ -30,6 +30,11 @@ func init() {
 		{Kind: "block", Name: "Value_MarshalAppend_float64", Func: "Value.MarshalAppend", Anchor: "b", Occur: 17, Up: 1},
 		// case TypeSliceBool: for i := range vals { if vals[i] > 1 { b = append(b, 255) } else { b = append(b, byte(vals[i])) } }; return b, nil
 		{Kind: "block", Name: "Value_MarshalAppend_sliceBool", Func: "Value.MarshalAppend", Anchor: "b", Occur: 21, Up: 2},
+		// the unsigned fixed-width array cases: if arch == LittleEndian { for i := range vals { b = binary.LittleEndian.AppendUintN(b, vals[i]) } }
+		// else { …BigEndian… }; return b, nil   (two lists up from the assignment inside the first loop)
+		{Kind: "block", Name: "Value_MarshalAppend_sliceUint16", Func: "Value.MarshalAppend", Anchor: "b", Occur: 26, Up: 2},
+		{Kind: "block", Name: "Value_MarshalAppend_sliceUint32", Func: "Value.MarshalAppend", Anchor: "b", Occur: 30, Up: 2},
+		{Kind: "block", Name: "Value_MarshalAppend_sliceUint64", Func: "Value.MarshalAppend", Anchor: "b", Occur: 34, Up: 2},
 		// UnmarshalValue, a typedef.Bool array: v := typedef.Bool(b[i]); if v > 1 { v = typedef.BoolInvalid }; vals = append(vals, v)
 		{Kind: "block", Name: "UnmarshalValue_boolElem", Func: "UnmarshalValue", Anchor: "v", Occur: 2, Up: 1},
 	}})
